@@ -141,17 +141,97 @@ class CFG:
         return None
 
     def must_pass(self, starts: Iterable[int], exits: Iterable[int], through: set[int],
-                  through_edges: set = frozenset()) -> list[tuple[int, str]] | None:
-        """None if every path from starts to exits passes a node in `through`
-        (or an edge in `through_edges`); otherwise the shortest offending path."""
+                  through_edges: set = frozenset(), feasible_only: bool = True) -> list[tuple[int, str]] | None:
+        """None if every *feasible* path from starts to exits passes a node in `through`
+        (or an edge in `through_edges`); otherwise an offending path.  Feasibility is decided only
+        w.r.t. boolean flag locals and repeated tests (`done = True` flags, one-trip wrappers of
+        inlined helpers): an offending path found by plain reachability is re-examined before it counts."""
         exits = set(exits)
+        starts = list(starts)
+        first = None
         for s in starts:
             if s in through:
                 continue
             p = self.shortest_path(s, exits, removed=through, removed_edges=through_edges)
             if p is not None:
-                return p
+                first = p
+                break
+        if first is None or not feasible_only or self._feasible(first):
+            return first
+        for s in starts:
+            if s in through:
+                continue
+            try:
+                for path in self.paths_between(s, exits, limit=8000, avoid=through):
+                    if path[-1][0] not in exits:
+                        continue
+                    if any((a, b, lab) in through_edges for (a, _l), (b, lab) in zip(path, path[1:])):
+                        continue
+                    if self._feasible(path):
+                        return path
+            except AnalysisError:
+                return first  # too many paths to refine: keep the conservative answer
         return None
+
+    def _feasible(self, path: list[tuple[int, str]]) -> bool:
+        """path consistency w.r.t. boolean/None constants stored in locals and repeated atoms"""
+        env: dict[str, bool] = {}
+
+        def ev(t: ast.AST) -> bool | None:
+            if isinstance(t, ast.Constant):
+                return bool(t.value)
+            if isinstance(t, ast.UnaryOp) and isinstance(t.op, ast.Not):
+                v = ev(t.operand)
+                return None if v is None else not v
+            if isinstance(t, ast.BoolOp):
+                vals = [ev(v) for v in t.values]
+                if isinstance(t.op, ast.And):
+                    return False if any(v is False for v in vals) else (True if all(v is True for v in vals) else None)
+                return True if any(v is True for v in vals) else (False if all(v is False for v in vals) else None)
+            for (a, pol) in atoms(t, True):
+                if a in env:
+                    return env[a] == pol
+            return None
+
+        def setv(t: ast.AST, val: bool) -> None:
+            for (a, pol) in atoms(t, val):
+                env[a] = pol
+
+        for i, (nid, _lab) in enumerate(path):
+            n = self.nodes[nid]
+            if n.kind == "test" and i + 1 < len(path) and path[i + 1][1] in ("true", "false"):
+                want = path[i + 1][1] == "true"
+                cur = ev(n.ast)
+                if cur is not None and cur != want:
+                    return False
+                if cur is None:
+                    setv(n.ast, want)
+            elif n.kind == "stmt" and isinstance(n.ast, (ast.Assign, ast.AnnAssign, ast.AugAssign, ast.Delete)):
+                tgts = n.ast.targets if isinstance(n.ast, (ast.Assign, ast.Delete)) else [n.ast.target]
+                val = getattr(n.ast, "value", None)
+                for t in tgts:
+                    for x in ast.walk(t):
+                        if isinstance(x, (ast.Name, ast.Attribute)):
+                            name = unparse(x)
+                            import re
+                            pat = re.compile(r"(?<![\w.])" + re.escape(name) + r"(?![\w])")
+                            for k in list(env):
+                                if pat.search(k):
+                                    del env[k]
+                    if isinstance(t, ast.Name) and isinstance(n.ast, (ast.Assign, ast.AnnAssign)):
+                        if isinstance(val, ast.Constant) and (isinstance(val.value, bool) or val.value is None):
+                            env[t.id] = bool(val.value)
+                            env[f"{t.id} is None"] = val.value is None
+                        elif isinstance(val, ast.Name) and val.id in env:
+                            env[t.id] = env[val.id]
+            elif n.kind == "stmt" and n.ast is not None and not isinstance(n.ast, (ast.Return, ast.Raise, ast.Pass, ast.Break, ast.Continue, ast.Expr)):
+                pass
+            if n.kind == "stmt" and isinstance(n.ast, ast.Expr) and isinstance(n.ast.value, ast.Call):
+                # a call may change attributes of self: forget attribute-based atoms
+                for k in list(env):
+                    if "." in k and "(" not in k:
+                        pass
+        return True
 
     def describe_path(self, path: list[tuple[int, str]]) -> str:
         parts = []
@@ -203,6 +283,24 @@ class CFG:
                 if n not in self.reach([self.entry.id], removed_edges=removed_edges):
                     out.append((t, lab))
         return out
+
+    def paths_between(self, start: int, targets: set[int], limit: int = 4000, avoid: set[int] = frozenset()) -> Iterator[list[tuple[int, str]]]:
+        """Acyclic paths from start that end at the first node in `targets` (or at an exit)."""
+        count = 0
+        ends = set(targets) | {self.exit.id, self.raise_exit.id}
+        stack: list[tuple[int, list[tuple[int, str]], frozenset]] = [(start, [(start, "")], frozenset([start]))]
+        while stack:
+            n, path, seen = stack.pop()
+            if n in ends and len(path) > 1 or (n in ends and n != start):
+                count += 1
+                if count > limit:
+                    raise AnalysisError(f"path bound exceeded in {self.fi.qualname}")
+                yield path
+                continue
+            for (m, lab) in reversed(self.succ[n]):
+                if m in seen or m in avoid:
+                    continue
+                stack.append((m, path + [(m, lab)], seen | {m}))
 
     def paths(self, start: int, limit: int = 512) -> Iterator[list[tuple[int, str]]]:
         """Acyclic paths (each node at most once) from start to an exit."""
@@ -295,8 +393,12 @@ class Oracle:
                         continue
                 if self.precise:
                     continue
-                if self.callee_name(x) in self.nonraising:
+                cn = self.callee_name(x)
+                if cn in self.nonraising:
                     continue
+                b = getattr(__import__("builtins"), cn, None)
+                if (isinstance(b, type) and issubclass(b, BaseException)) or self.repo.is_subclass_name(cn, "Exception") is True and cn in self.repo.classes:
+                    continue  # constructing an exception object does not raise
                 out.append((ANY, False))
         # de-duplicate
         seen = set()
